@@ -5,6 +5,7 @@ package dtlcp
 // Datagram-stack hooks of the scripted peers and the runner "endpoint under test vs peer".
 
 import (
+	"net"
 	"context"
 	"fmt"
 	"time"
@@ -134,6 +135,9 @@ type vfVsPeer struct {
 	Sim            *vfDSim
 }
 
+// vfPeerServerNilAddr: the next vfRunVsPeer server is created without a peer address.
+var vfPeerServerNilAddr bool
+
 func vfRunVsPeer(underTestIsClient bool, ucfg, pcfg *Config, peer func(pc *Conn) error, uact func(c *Conn, hsErr error) error) *vfVsPeer {
 	sim := vfNewDSim(nil, 0)
 	if vfPeerClientAddr != "" {
@@ -141,13 +145,28 @@ func vfRunVsPeer(underTestIsClient bool, ucfg, pcfg *Config, peer func(pc *Conn)
 	}
 	uc, pcf := ucfg.Clone(), pcfg.Clone()
 	uc.NewTimer, pcf.NewTimer = sim.newTimer, sim.newTimer
+	if g := uc.GetConfigForClient; g != nil {
+		// a per-client configuration (possibly one object shared by several connections) runs on this
+		// simulation's clock
+		uc.GetConfigForClient = func(h *ClientHelloInfo) (*Config, error) {
+			c, err := g(h)
+			if c != nil {
+				c.NewTimer = sim.newTimer
+			}
+			return c, err
+		}
+	}
 	var u, pc *Conn
 	ui, pi := 0, 1
 	if underTestIsClient {
 		u, pc = Client(sim.ends[0], sim.ends[1].addr, uc), Server(sim.ends[1], sim.ends[0].addr, pcf)
 	} else {
 		ui, pi = 1, 0
-		u, pc = Server(sim.ends[1], sim.ends[0].addr, uc), Client(sim.ends[0], sim.ends[1].addr, pcf)
+		var peerAddr net.Addr = sim.ends[0].addr
+		if vfPeerServerNilAddr {
+			peerAddr = nil // the server learns its peer from the first datagram
+		}
+		u, pc = Server(sim.ends[1], peerAddr, uc), Client(sim.ends[0], sim.ends[1].addr, pcf)
 	}
 	r := &vfVsPeer{U: u, Sim: sim}
 	udone, pdone := make(chan struct{}), make(chan struct{})
